@@ -7,6 +7,7 @@ import (
 	"strings"
 	"sync"
 	"sync/atomic"
+	"syscall"
 	"testing"
 	"testing/synctest"
 	"time"
@@ -90,16 +91,18 @@ func startWatchdog() {
 				continue
 			}
 			a := allStacks()
+			cpu0 := cpuTime()
 			time.Sleep(2 * time.Second)
 			if wdSerial.Load() != ser {
 				continue
 			}
 			b := allStacks()
+			busy := cpuTime()-cpu0 > 300*time.Millisecond // the process is computing (e.g. a long virtual-time loop): not a deadlock
 			journal := ""
 			if p := wdCase.Load(); p != nil {
 				journal = *p
 			}
-			blocked := normalize(a) == normalize(b) && !strings.Contains(stripSelf(b), "[running]") && !strings.Contains(stripSelf(b), "[runnable]")
+			blocked := !busy && normalize(a) == normalize(b) && !strings.Contains(stripSelf(b), "[running]") && !strings.Contains(stripSelf(b), "[runnable]")
 			if dir := os.Getenv("VERIF_WEDGE_DIR"); dir != "" {
 				_ = os.WriteFile(dir+"/wedge.journal", []byte(journal), 0o644)
 				_ = os.WriteFile(dir+"/wedge.stacks", []byte(b), 0o644)
@@ -112,6 +115,15 @@ func startWatchdog() {
 			os.Exit(ExitStuck)
 		}
 	}()
+}
+
+// cpuTime is the CPU time (user+system) consumed by the process so far.
+func cpuTime() time.Duration {
+	var ru syscall.Rusage
+	if err := syscall.Getrusage(syscall.RUSAGE_SELF, &ru); err != nil {
+		return 0
+	}
+	return time.Duration(ru.Utime.Nano() + ru.Stime.Nano())
 }
 
 func allStacks() string {
